@@ -73,7 +73,8 @@ def handleJ (ts : Toks) : String :=
       let fails : List String :=
         (if resT != "own" && resT != "timeout" then ["executor-did-not-proceed:" ++ resT] else []) ++
         (match d with
-         | some dv => if decide (dv < timeout) && resT != "own" then ["body-returned-before-deadline-reported-as-timeout"] else []
+         | some dv => if decide (dv < timeout) && resT != "own" then ["body-returned-before-deadline-reported-as-timeout"]
+                      else if decide (timeout < dv) && resT == "own" then ["body-still-running-at-its-deadline-not-reported-as-timeout"] else []
          | none => if resT != "timeout" then ["hung-body-not-reported-as-timeout"] else []) ++
         (if decide (tReal < timeout + iv) || decide (tReal ≤ (d.getD 0) + hh) then [] else ["executor-proceeded-later-than-deadline-plus-poll-interval"]) ++
         (match d with
